@@ -19,6 +19,7 @@ pub mod syscalls {
 //@use syscalls.openat_follow
 //@use syscalls.readlinkat
 //@use syscalls.fstatfs a5
+//@use-missing syscalls.openat syscalls.openat_follow syscalls.readlinkat syscalls.mkdirat syscalls.mknodat syscalls.unlinkat syscalls.linkat syscalls.symlinkat syscalls.renameat syscalls.renameat2 syscalls.openat2
 }
 use syscalls::Error as SyscallError;
 //@item src/error.rs :: enum ErrorKind | sub.ErrorKind
